@@ -7,7 +7,9 @@ import (
 	"fmt"
 	"os"
 	"strings"
+	"sync"
 	"testing"
+	"time"
 
 	"github.com/256dpi/gomqtt/packet"
 
@@ -342,6 +344,175 @@ func run(r *h.Run, idx int, fs []string) {
 	}
 }
 
+// concurrentRetained: a publisher streams numbered retained messages to one topic
+// while subscribers subscribe at arbitrary moments. A new subscription must see
+// the retained value that was current when it took effect and every later one:
+// no gap between the replayed value and the live stream.
+func concurrentRetained(r *h.Run, idx int) {
+	if r.TooMany() {
+		return
+	}
+	rng := r.Rand(fmt.Sprintf("c11-conc-%d", idx))
+	r.Journal("C11 concurrent retained #%d", idx)
+	b := bh.NewBroker()
+	if idx%2 == 0 {
+		b.Mon.Perturb = r.Rand(fmt.Sprintf("c11-conc-perturb-%d", idx))
+	}
+	defer b.Shutdown()
+	fail := func(key, msg string) {
+		r.Violation("concurrent/"+key, fmt.Sprintf("concurrent retained #%d: %s", idx, msg), map[string]interface{}{"detail": msg, "event_log_tail": b.Log.Dump(150)})
+	}
+	M := 40 + rng.Intn(60)
+	nsub := 3 + rng.Intn(6)
+	pub, _, pca, err := b.Connect("pub", bh.ConnectOpts{ID: "c11-cpub", Clean: true, AutoAck: true}, nil)
+	if err != nil || pca == nil {
+		r.Inconclusive("publisher")
+		return
+	}
+	// background load on the backend's global lock
+	load, _, lca, err := b.Connect("load", bh.ConnectOpts{ID: "c11-load", Clean: true, AutoAck: true}, nil)
+	if err != nil || lca == nil {
+		r.Inconclusive("load client")
+		return
+	}
+	stop := make(chan struct{})
+	loadDone := make(chan struct{})
+	go func() {
+		defer close(loadDone)
+		for i := 0; ; i++ {
+			select {
+			case <-stop:
+				return
+			default:
+			}
+			if load.Send(&packet.Publish{Message: packet.Message{Topic: "load/x", Payload: []byte("l"), Retain: i%2 == 0}}) != nil {
+				return
+			}
+			if i%16 == 15 {
+				if bh.Ping(load) != nil {
+					return
+				}
+			}
+		}
+	}()
+	pubDone := make(chan struct{})
+	go func() {
+		defer close(pubDone)
+		for v := 1; v <= M; v++ {
+			if pub.Send(&packet.Publish{Message: packet.Message{Topic: "cc/t", Payload: []byte(fmt.Sprintf("v|%05d", v)), Retain: true}}) != nil {
+				return
+			}
+			if v%3 == 0 {
+				if bh.Ping(pub) != nil {
+					return
+				}
+			}
+		}
+		_ = bh.Ping(pub)
+	}()
+	subs := make([]*bh.Peer, nsub)
+	delays := make([]time.Duration, nsub)
+	for j := range delays {
+		delays[j] = time.Duration(rng.Intn(3000)+j*400) * time.Microsecond
+	}
+	var wg sync.WaitGroup
+	for j := 0; j < nsub; j++ {
+		wg.Add(1)
+		go func(j int) {
+			defer wg.Done()
+			time.Sleep(delays[j])
+			p, _, ca, err := b.Connect(fmt.Sprintf("sub%d", j), bh.ConnectOpts{ID: fmt.Sprintf("c11-csub%d", j), Clean: true, AutoAck: true}, nil)
+			if err != nil || ca == nil {
+				return
+			}
+			_ = p.Send(&packet.Subscribe{ID: 1, Subscriptions: []packet.Subscription{{Topic: "cc/#", QOS: 0}}})
+			if _, err := bh.AwaitAck(p, packet.SUBACK, 1); err != nil {
+				return
+			}
+			subs[j] = p
+		}(j)
+	}
+	wg.Wait()
+	<-pubDone
+	close(stop)
+	<-loadDone
+	// end marker through the same (QoS 0) queue
+	_ = pub.Send(&packet.Publish{Message: packet.Message{Topic: "cc/t", Payload: []byte("END")}})
+	if bh.Ping(pub) != nil {
+		r.Inconclusive("publisher ping")
+		return
+	}
+	gaps := 0
+	for j, p := range subs {
+		if p == nil {
+			continue
+		}
+		ok := p.WaitCond(bh.Watchdog, func(all []packet.Generic) bool {
+			for i := len(all) - 1; i >= 0; i-- {
+				if pp, is := all[i].(*packet.Publish); is && string(pp.Message.Payload) == "END" {
+					return true
+				}
+			}
+			return false
+		})
+		if !ok {
+			fail("end-marker-missing", fmt.Sprintf("subscriber %d never received the end marker", j))
+			return
+		}
+		var vals []int
+		replays := 0
+		for _, g := range p.All() {
+			pp, is := g.(*packet.Publish)
+			if !is || !strings.HasPrefix(string(pp.Message.Payload), "v|") {
+				continue
+			}
+			var v int
+			fmt.Sscanf(string(pp.Message.Payload), "v|%d", &v)
+			if pp.Message.Retain {
+				replays++
+				if len(vals) > 0 {
+					fail("replay-after-live", fmt.Sprintf("subscriber %d received a retained-flagged copy (value %d) after live deliveries %v", j, v, vals))
+					return
+				}
+			}
+			vals = append(vals, v)
+		}
+		if replays > 1 {
+			fail("replay-twice", fmt.Sprintf("subscriber %d received %d retained-flagged copies for one subscription", j, replays))
+			return
+		}
+		if len(vals) == 0 {
+			fail("nothing-received", fmt.Sprintf("subscriber %d subscribed while %d retained values were published and received neither a replay nor a live copy", j, M))
+			return
+		}
+		seen := map[int]bool{}
+		for _, v := range vals {
+			seen[v] = true
+		}
+		for v := vals[0]; v <= M; v++ {
+			if !seen[v] {
+				fail("gap", fmt.Sprintf("subscriber %d received values %v (first was a replay: %t): value %d is missing although it was published after the subscription took effect (stream 1..%d)", j, clipInts(vals), replays == 1, v, M))
+				return
+			}
+		}
+		if vals[0] > 1 && vals[0] < M {
+			gaps++
+		}
+	}
+	if gaps > 0 {
+		r.NonTrivial(fmt.Sprintf("conc:%d", idx))
+	}
+	r.Count("subscriptions_taken_mid_stream", int64(gaps))
+	r.Eval()
+}
+
+func clipInts(v []int) []int {
+	if len(v) > 24 {
+		return append(append([]int{}, v[:12]...), v[len(v)-12:]...)
+	}
+	return v
+}
+
 // settleOffline: after the persistent subscriber resumed, it receives what was
 // queued while offline (flag cleared); nobody else receives anything.
 func (x *hist) settleOffline(who string, exp []ref.Expect) bool {
@@ -351,11 +522,14 @@ func (x *hist) settleOffline(who string, exp []ref.Expect) bool {
 func TestCheck(t *testing.T) {
 	r := h.New("C11", "exploration")
 	fs := filterSet()
-	r.Rule(fmt.Sprintf("PRNG histories of 14-28 steps over 7 topics (incl. empty levels and a leading '/'): retained / plain / empty-retained publishes at QoS 0-2 by two publishers, retained and plain wills of victims whose connection is dropped, probe subscribers using every filter of the depth<=3 universe over {a,b,empty,+,#} (%d filters, cycled deterministically, 1-3 filters per SUBSCRIBE, repeated subscriptions), a live '#' observer, an offline persistent subscriber, and '#' checkpoints; after every step a marker fence and comparison of all received PUBLISH packets (topic, payload, retain flag, QoS cap, count) with the retained-map model. Non-trivial = histories with a subscription made while >= 2 topics are retained and at least one does not match; distinct by history", len(fs)))
+	r.Rule(fmt.Sprintf("PRNG histories of 14-28 steps over 7 topics (incl. empty levels and a leading '/'): retained / plain / empty-retained publishes at QoS 0-2 by two publishers, retained and plain wills of victims whose connection is dropped, probe subscribers using every filter of the depth<=3 universe over {a,b,empty,+,#} (%d filters, cycled deterministically, 1-3 filters per SUBSCRIBE, repeated subscriptions), a live '#' observer, an offline persistent subscriber, and '#' checkpoints; after every step a marker fence and comparison of all received PUBLISH packets (topic, payload, retain flag, QoS cap, count) with the retained-map model. Concurrent part: a publisher streams 40-100 numbered retained QoS 0 messages to one topic under background load on the backend while 3-8 subscribers subscribe at PRNG moments; each must receive at most one replay, first, and then every later value without a gap. Non-trivial = histories with a subscription made while >= 2 topics are retained and at least one does not match; distinct by history", len(fs)))
 	r.Assume("retained replay for a SUBSCRIBE with k matching filters may arrive 1..k times (per-filter replay)")
 	r.Assume("QoS 0 publishes while a persistent subscriber is offline may be dropped")
 	n := r.Pick(120, 2500)
 	h.Parallel(n, 8, func(i int) { run(r, i, fs) })
 	r.Count("histories", int64(n))
+	nc := r.Pick(150, 3000)
+	h.Parallel(nc, 8, func(i int) { concurrentRetained(r, i) })
+	r.Count("concurrent_retained_runs", int64(nc))
 	os.Exit(r.Finish(20))
 }
